@@ -37,7 +37,8 @@ ASSUMPTIONS = [
     "a request evaluated first thing in a fresh process is the reference (3 fresh processes agree bit for bit)",
     "the on-disk library cache is shared by the oracle processes (its content is C17/C18's business)",
 ]
-REQUIRED_MONITORS = ["same_bytes_as_fresh_process", "inputs_unchanged", "no_stale_result", "fresh_processes_agree"]
+REQUIRED_MONITORS = ["same_bytes_as_fresh_process", "inputs_unchanged", "no_stale_result", "fresh_processes_agree",
+                     "earlier_results_not_overwritten"]
 REQUIRED_BUCKETS = {"quick": ["op:call_kernel", "op:call_Fq", "op:direct", "op:sasview", "op:clone", "op:release_kernel",
                               "op:release_model", "op:reload", "shared_kernel_interleaving", "toggle:dispersity",
                               "toggle:magnetic", "repeat_identical", "big_then_small", "empty_or_one_point_mesh",
@@ -286,7 +287,7 @@ def to_bytes(res):
     return b"|".join(parts).hex()
 
 
-def evaluate(state, req, snapshots=None):
+def evaluate(state, req, snapshots=None, keep=None):
     """Execute the request through its interface; returns hex bytes.  *snapshots* collects
     (label, before, after) for every caller-supplied container."""
     from sasmodels import direct_model, data as sdata, sasview_model
@@ -351,6 +352,8 @@ def evaluate(state, req, snapshots=None):
         raise ValueError(via)
     if snapshots is not None:
         snapshots.append(("parameter dict", before, pars))
+    if keep is not None:
+        keep.append(res)
     return to_bytes(res)
 
 
@@ -469,6 +472,7 @@ def run_history(case, rec):
     after_release = False
     prev = None
     seen_kernel = {}
+    held = []
     for step, (op, arg) in enumerate(ops):
         rec.bucket("op:" + ("call_kernel" if op == "eval" and reqs[arg]["via"] == "call_kernel" else
                             "call_Fq" if op == "eval" and reqs[arg]["via"] == "call_Fq" else
@@ -476,7 +480,16 @@ def run_history(case, rec):
         if op == "eval":
             req = reqs[arg]
             snaps = []
-            got = evaluate(st, req, snaps)
+            kept = []
+            got = evaluate(st, req, snaps, kept)
+            # results handed out earlier stay what they were when returned (no aliasing of internal buffers)
+            for hstep, harg, hres, hbytes in held[-6:]:
+                now = to_bytes(hres)
+                rec.check("earlier_results_not_overwritten", now == hbytes,
+                          None if now == hbytes else {"step": step, "request": arg, "earlier_step": hstep,
+                                                      "earlier_request": harg, "was": _floats(hbytes), "now": _floats(now)})
+            if kept:
+                held.append((step, arg, kept[0], got))
             exp = table[arg]
             ok = (got == exp)
             rec.check("same_bytes_as_fresh_process", ok,
